@@ -126,6 +126,23 @@ func genC09(seed int64, tier string) *Scenario {
 	if classes {
 		use.WriteString("---@type Cls0\nlocal c0 = nil\nprint(c0.fa0)\n")
 	}
+	if r.Intn(3) == 0 {
+		// a table and an annotated class with more members than the hover / completion preview shows
+		// (PreviewFieldsNum, 30 by default): which members make it into the preview must not
+		// depend on map order
+		var big, cls strings.Builder
+		big.WriteString("BigTbl = {\n")
+		cls.WriteString("---@class BigCls\n")
+		for k := 0; k < 34+r.Intn(10); k++ {
+			fmt.Fprintf(&big, "  k%02d = %d,\n", k, k)
+			fmt.Fprintf(&cls, "---@field f%02d number\n", k)
+		}
+		big.WriteString("}\n")
+		cls.WriteString("BigClsT = {}\n")
+		sc.Files = append(sc.Files, File{Path: "d0/big.lua", Data: Bytes(big.String() + cls.String())})
+		use.WriteString("print(BigTbl, BigTbl.k01)\n---@type BigCls\nlocal bigc = nil\nprint(bigc, bigc.f01)\n")
+		sc.Knobs["big"] = true
+	}
 	if r.Intn(2) == 0 {
 		// an annotated function called with too few arguments from many files: the cross-file workers
 		// all consult (and lazily fill) the callee's shared parameter information
